@@ -220,7 +220,7 @@ def gen_split_cases(rnd, tier, pre):
     reqs = [[COOKIE + b"=" + rand_value(rnd)] for _ in range(n)]
     cases.append(split_case("sweep", [], allp, reqs, ["plain"] * n))
     # structured and malformed streams
-    n_struct, n_mal, nreq = (34, 22, 16) if tier == "quick" else (700, 450, 24)
+    n_struct, n_mal, nreq = (60, 40, 16) if tier == "quick" else (700, 450, 24)
     for stream, count in (("structured", n_struct), ("malformed", n_mal)):
         for _ in range(count):
             pool = [rand_value(rnd) for _ in range(4)]
